@@ -44,6 +44,8 @@ pub struct Reader<D, E> {
 impl<D, E> Reader<D, E> {
     pub fn size_hint(&self) -> SizeHint {
         let mut h = SizeHint::default();
+        #[cfg(feature = "verif-hooks")]
+        crate::verif::yield_point(crate::verif::Site::HintLock);
         if let SharedState::Ok {
             ready_bytes,
             writer_dropped,
@@ -60,6 +62,8 @@ impl<D, E> Reader<D, E> {
     }
 
     pub fn is_end_stream(&self) -> bool {
+        #[cfg(feature = "verif-hooks")]
+        crate::verif::yield_point(crate::verif::Site::EosLock);
         match self.shared.lock().expect("not poisoned").state {
             SharedState::Ok {
                 ready_bytes,
@@ -72,10 +76,66 @@ impl<D, E> Reader<D, E> {
     }
 }
 
+/// Verification-only handle onto the shared state; outlives `Reader` and `Writer`.
+#[cfg(feature = "verif-hooks")]
+pub struct Probe<E> {
+    shared: Arc<Mutex<Shared<E>>>,
+}
+
+#[cfg(feature = "verif-hooks")]
+impl<E> Probe<E> {
+    /// Copies the shared state. Must not be called while a thread is inside a critical section.
+    pub fn snapshot(&self, wakers: &[std::task::Waker]) -> crate::verif::Snapshot {
+        let l = self.shared.lock().expect("not poisoned");
+        let waker = l.waker.as_ref().map(|w| {
+            wakers
+                .iter()
+                .position(|c| w.will_wake(c))
+                .unwrap_or(usize::MAX)
+        });
+        match &l.state {
+            SharedState::Ok {
+                ready,
+                ready_bytes,
+                writer_dropped,
+            } => crate::verif::Snapshot {
+                state: "ok",
+                ready: ready.iter().map(Vec::len).collect(),
+                ready_bytes: *ready_bytes,
+                writer_dropped: *writer_dropped,
+                waker,
+            },
+            other => crate::verif::Snapshot {
+                state: if matches!(other, SharedState::Err(_)) {
+                    "err"
+                } else {
+                    "fused"
+                },
+                ready: Vec::new(),
+                ready_bytes: 0,
+                writer_dropped: false,
+                waker,
+            },
+        }
+    }
+}
+
+#[cfg(feature = "verif-hooks")]
+impl<D, E> Reader<D, E> {
+    /// Returns a verification probe onto this reader's shared state.
+    pub fn verif_probe(&self) -> Probe<E> {
+        Probe {
+            shared: self.shared.clone(),
+        }
+    }
+}
+
 impl<D, E> Drop for Reader<D, E> {
     /// Tells the `Writer` that no one will consume further chunks and releases any queued ones.
     fn drop(&mut self) {
         let _old; // drop might be slow; release lock first.
+        #[cfg(feature = "verif-hooks")]
+        crate::verif::yield_point(crate::verif::Site::ReaderDropLock);
         if let Ok(mut l) = self.shared.lock() {
             _old = std::mem::replace(&mut l.state, SharedState::ReaderFused);
             l.waker = None;
@@ -94,6 +154,8 @@ where
         cx: &mut std::task::Context<'_>,
     ) -> std::task::Poll<Option<Self::Item>> {
         let shared = &self.as_mut().shared;
+        #[cfg(feature = "verif-hooks")]
+        crate::verif::yield_point(crate::verif::Site::PollLock);
         let mut l = shared.lock().expect("not poisoned");
         match std::mem::replace(&mut l.state, SharedState::ReaderFused) {
             SharedState::Ok {
@@ -209,6 +271,8 @@ where
 
     /// Causes the HTTP connection to be dropped abruptly with the given error.
     pub(crate) fn abort(&mut self, error: E) {
+        #[cfg(feature = "verif-hooks")]
+        crate::verif::yield_point(crate::verif::Site::AbortLock);
         let mut l = self.shared.lock().expect("not poisoned");
         let _ready;
         let waker;
@@ -221,6 +285,8 @@ where
         };
         drop(l);
         if let Some(w) = waker {
+            #[cfg(feature = "verif-hooks")]
+            crate::verif::yield_point(crate::verif::Site::AbortWake);
             w.wake();
         }
     }
@@ -229,6 +295,8 @@ where
         if self.buf.is_empty() && !dropping {
             return Ok(());
         }
+        #[cfg(feature = "verif-hooks")]
+        crate::verif::yield_point(crate::verif::Site::FlushLock);
         let mut l = self.shared.lock().expect("not poisoned");
         let waker = if let SharedState::Ok {
             ready,
@@ -250,9 +318,17 @@ where
         };
         drop(l);
         if let Some(w) = waker {
+            #[cfg(feature = "verif-hooks")]
+            crate::verif::yield_point(crate::verif::Site::FlushWake);
             w.wake();
         }
         Ok(())
+    }
+
+    /// Bytes sitting in the private (not yet published) buffer.
+    #[cfg(feature = "verif-hooks")]
+    pub(crate) fn verif_buffered(&self) -> usize {
+        self.buf.len()
     }
 
     /// Truncates the output buffer (for testing).
